@@ -74,7 +74,7 @@ def run_graphs(ctx, order, prop_assumptions, small=False):
     t2, s2 = vlib.drive_gen(ctx, "c07", 8, extra=["-n", (1500 if thorough else 150) // (3 if small else 1)])
     n, bad = vlib.judge(ctx, "Trace_YamlGraph", traces + t2, cfg_text=tcfg, timeout=3000)
     vlib.report_bad(ctx, bad, sig, desc,
-                    lambda ev: {"cases": [ev["c"]], "extra": ["-mode", ev["mode"]], "event": {k: ev[k] for k in ev if k != "c"}},
+                    lambda ev: {"cases": [dict(ev["c"], mode=ev["mode"])], "event": {k: ev[k] for k in ev if k != "c"}},
                     vlib.confirm_by_cases(ctx, "c07", "Trace_YamlGraph", cfg_text=tcfg))
     cov = {
         "states": sum(r.distinct for r in mruns), "transitions": sum(r.generated for r in mruns),
